@@ -314,6 +314,9 @@ fn peephole3_helper(lines: &[Line], index: usize, ret: &mut Vec<Line>) -> bool {
                         let a = a.parse::<f64>().unwrap();
                         let b = b.parse::<f64>().unwrap();
                         let c = a + b;
+                        if c.is_nan() {
+                            return false;
+                        }
                         ret.push(Line::Instr {
                             instr: Instr::PushFloat(c.to_string()),
                             lineno,
@@ -331,6 +334,9 @@ fn peephole3_helper(lines: &[Line], index: usize, ret: &mut Vec<Line>) -> bool {
                         let a = a.parse::<f64>().unwrap();
                         let b = b.parse::<f64>().unwrap();
                         let c = a - b;
+                        if c.is_nan() {
+                            return false;
+                        }
                         ret.push(Line::Instr {
                             instr: Instr::PushFloat(c.to_string()),
                             lineno,
@@ -348,6 +354,9 @@ fn peephole3_helper(lines: &[Line], index: usize, ret: &mut Vec<Line>) -> bool {
                         let a = a.parse::<f64>().unwrap();
                         let b = b.parse::<f64>().unwrap();
                         let c = a * b;
+                        if c.is_nan() {
+                            return false;
+                        }
                         ret.push(Line::Instr {
                             instr: Instr::PushFloat(c.to_string()),
                             lineno,
@@ -364,7 +373,13 @@ fn peephole3_helper(lines: &[Line], index: usize, ret: &mut Vec<Line>) -> bool {
                     ) => {
                         let a = a.parse::<f64>().unwrap();
                         let b = b.parse::<f64>().unwrap();
+                        if b == 0.0 {
+                            return false;
+                        }
                         let c = a / b;
+                        if c.is_nan() {
+                            return false;
+                        }
                         ret.push(Line::Instr {
                             instr: Instr::PushFloat(c.to_string()),
                             lineno,
@@ -382,6 +397,9 @@ fn peephole3_helper(lines: &[Line], index: usize, ret: &mut Vec<Line>) -> bool {
                         let a = a.parse::<f64>().unwrap();
                         let b = b.parse::<f64>().unwrap();
                         let c = a.powf(b);
+                        if c.is_nan() {
+                            return false;
+                        }
                         ret.push(Line::Instr {
                             instr: Instr::PushFloat(c.to_string()),
                             lineno,
